@@ -292,7 +292,7 @@ static int fnc_frombcharcode (hawk_rtx_t* rtx, const hawk_fnc_info_t* fi)
 		a0 = hawk_rtx_getarg(rtx, 0);
 		if (hawk_rtx_valtoint(rtx, a0, &cc) <= -1) return -1;
 
-		retv = hawk_rtx_makecharval(rtx, (hawk_ooch_t)cc);
+		retv = hawk_rtx_makebchrval(rtx, (hawk_bch_t)cc);
 		if (HAWK_UNLIKELY(!retv)) return -1;
 	}
 	else
